@@ -216,7 +216,7 @@ Definition dobs_of (s0 : cst) (e : denv) (s : cst) : dobs :=
   let waiting := waiting_callers s in
   mkDobs (sort_pairs (skipn (length (c_rets s0)) (c_rets s)))
          (sort_z (dn_starts e)) (sort_z (dn_ends e))
-         (count_fd dl) (zlen dl)
+         (count_fd dl) (count_peer PEER dl)
          (fdConsuming (c_lim s)) (act_get PEER (activePerPeer (c_lim s)))
          (boolz (p_active (sget PEER (c_sync s))))
          (if waiting =? 0
